@@ -749,8 +749,19 @@ int main(int argc, char **argv) {
 
     // Handle .s
     if (type == FILE_ASM) {
-      if (!opt_S)
+      // There is nothing to preprocess or compile in an assembly file.
+      if (opt_S || opt_E || opt_M)
+        continue;
+
+      if (opt_c) {
         assemble(input, output);
+        continue;
+      }
+
+      // Assemble and link
+      char *tmp = create_tmpfile();
+      assemble(input, tmp);
+      strarray_push(&ld_args, tmp);
       continue;
     }
 
